@@ -8,13 +8,13 @@ import time
 from .. import build as B
 from .. import engine as E
 from ..oracle import MODES
-from . import c01, c02, c03, c04, c05, c10, c11, c12, c13, c14, c15, c16
+from . import c01, c02, c03, c04, c05, c06, c07, c08, c09, c10, c11, c12, c13, c14, c15, c16
 
 ID = "C20"
 TITLE = "Results do not depend on the build profile; overflow is never silent"
 RULE = ("differential monitor: one seeded workload - the union of the boundary families and random generators of "
-        "C01-C05, C10-C16 (operators, checked variants, rounded ops, round, rem, formatting, float and integer "
-        "conversions, unary ops, wide kernels) - is executed by N builds of the same tree (quick: dev, release, "
+        "C01-C16 (operators, checked variants, rounded ops, round, parsing, Display, comparisons and live structures, "
+        "hashing, rem, formatting, float and integer conversions, unary ops, wide kernels) - is executed by N builds of the same tree (quick: dev, release, "
         "release+packed, opt0 without overflow checks and debug assertions; thorough: the full matrix opt-level {0,3} x "
         "overflow-checks x debug-assertions x packed = 16 builds); the event logs are compared line by line on outcome "
         "class and value (panic messages are not compared) and every log is also judged by the owning property's "
@@ -25,10 +25,12 @@ BUILDS = {"quick": [("dev", ()), ("release", ()), ("release", ("packed",)), ("o0
 REQUIRED_SITES = {}
 BUDGET = {"quick": 30, "thorough": 600}
 MAX_BATCHES = {"quick": 1, "thorough": 10 ** 6}
-OWNERS = [c01, c02, c03, c04, c05, c10, c11, c12, c13, c14, c15, c16]
+OWNERS = [c01, c02, c03, c04, c05, c06, c07, c08, c09, c10, c11, c12, c13, c14, c15, c16]
 OWNER_OF = {}
 for _m, _ops in ((c01, "add sub cadd csub"), (c02, "mul cmul"), (c03, "div cdiv"), (c04, "mulr divr quant"),
-                 (c05, "round cround krnd"), (c10, "rem crem"), (c11, "fmt"), (c12, "tof64 tof32"),
+                 (c05, "round cround krnd"), (c06, "parse tryfrom_str tryfrom_string str2dec"),
+                 (c07, "tostr strfrom debug"), (c08, "cmpall minmax sort btree"), (c09, "hash hashpair ratio hashset"),
+                 (c10, "rem crem"), (c11, "fmt"), (c12, "tof64 tof32"),
                  (c13, "fromf64 fromf32"), (c14, "fromint toint"),
                  (c15, "neg negref abs floor ceil trunc fract magn preds"),
                  (c16, "k_i256 k_shdm k_mulr k_shdr")):
